@@ -138,6 +138,23 @@ fn scan_files(worker_file: &BTreeMap<u32, PathBuf>, execs: &[Exec]) -> Value {
     Value::Object(m)
 }
 
+/// One observation: the reader's answers and the scan of the files, taken at a moment when the files do not change
+/// (a write handed to the blocking pool may still land; then the observation is repeated).
+fn observe(dir: &std::path::Path, n_tasks: u32, worker_file: &BTreeMap<u32, PathBuf>, execs: &[Exec], evs: &[Value]) -> Value {
+    let mut tries = 0;
+    loop {
+        let before = scan_files(worker_file, execs);
+        let (read, open_err, pan) = read_back(dir, n_tasks);
+        let after = scan_files(worker_file, execs);
+        tries += 1;
+        if before == after || tries >= 20 {
+            return json!({"evs": evs.to_vec(), "execs": execs_json(execs, false), "read": read, "open_err": open_err, "pan": pan,
+                          "files": after, "stable": before == after});
+        }
+        std::thread::sleep(std::time::Duration::from_millis(1));
+    }
+}
+
 async fn one_run(run: u64, seed: u64, big: bool) -> Value {
     let mut rng = Rng::new(seed);
     let tmp = tempfile::TempDir::with_prefix("hqvs").unwrap();
@@ -197,9 +214,7 @@ async fn one_run(run: u64, seed: u64, big: bool) -> Value {
             break;
         }
         if events.len() > seen {
-            let (read, open_err, pan) = read_back(&dir, n_tasks);
-            steps.push(json!({"evs": events[seen..].to_vec(), "execs": execs_json(&execs, false), "read": read, "open_err": open_err, "pan": pan,
-                              "files": scan_files(&worker_file, &execs)}));
+            steps.push(observe(&dir, n_tasks, &worker_file, &execs, &events[seen..]));
             seen = events.len();
         }
         // executions that can make a step: same task on the same worker strictly sequential, instances start in order
@@ -339,9 +354,7 @@ async fn one_run(run: u64, seed: u64, big: bool) -> Value {
         pump().await;
     }
     if events.len() > seen {
-        let (read, open_err, pan) = read_back(&dir, n_tasks);
-        steps.push(json!({"evs": events[seen..].to_vec(), "execs": execs_json(&execs, false), "read": read, "open_err": open_err, "pan": pan,
-                          "files": scan_files(&worker_file, &execs)}));
+        steps.push(observe(&dir, n_tasks, &worker_file, &execs, &events[seen..]));
     }
     // let all writers finish, then apply the crash cuts; in a hard stop every worker is killed at this very moment instead:
     // the directory is read as it is while the streamers are alive, and what was running counts as crashed
